@@ -6,7 +6,7 @@
    and refuted by witness for the two deviations the pinned commit had (extra (n+1) factor in prune-regraft; the
    "holder keeps a point" rule applied to the outlier set).  The subtree move reduces to C01 when the chosen
    clone is top-level; its state-dependent subtree choice in general is NOT covered by a theorem (known finding). *)
-From PV Require Import Model.Gibbs Model.DpMove Proofs.GibbsProofs Proofs.DpMoveProofs.
+From PV Require Import Model.Gibbs Model.DpMove Proofs.GibbsProofs Proofs.DpMoveProofs Proofs.DpMoveInvariant.
 
 Theorem C04_gibbs_partition_invariant :
   forall (A : Type) (gamma : A -> Qc) (blocks : list (list A)) (cand : A -> list A) (f : A -> Qc),
@@ -33,6 +33,19 @@ Theorem C04_dp_candidates_closed :
 Proof. exact dp_candidates_closed. Qed.
 Print Assumptions C04_dp_candidates_closed.
 
+(* the data-point move with the repaired guard leaves the target invariant on every union of fibers
+   (fiber = all placements of x over an assignment of the other points in which every clone keeps another point)
+   and of states in which x cannot move *)
+Theorem C04_dp_move_invariant :
+  forall (clones : list nat) (outliers_on : bool) (gamma : state -> Qc) (x : nat) (reps fixed : list state) (f : state -> Qc),
+    (forall r, In r reps -> others clones x r) ->
+    (forall r, In r reps -> total gamma (cand clones outliers_on x r) <> 0) ->
+    (forall s, In s fixed -> movable false x s = false) ->
+    let S := concat (map (cand clones outliers_on x) reps) ++ fixed in
+    E (wlist gamma S) (fun s => E (dp_step clones outliers_on gamma false x s) f) = E (wlist gamma S) f.
+Proof. exact dp_move_invariant. Qed.
+Print Assumptions C04_dp_move_invariant.
+
 (* witnesses *)
 Open Scope nat_scope.
 Definition flat (_ : state) : Qc := 1%Qc.
@@ -45,6 +58,17 @@ Example C04_dp_sole_outlier_refuted :
   /\ movable true 0 s_out0 = false /\ movable false 0 s_out0 = true.
 Proof. repeat split; vm_compute; auto. Qed.
 Print Assumptions C04_dp_sole_outlier_refuted.
+
+(* non-vacuity of C04_dp_move_invariant: three points, two clones, outliers on; point 2 may go anywhere *)
+Example C04_dp_move_premises_satisfiable :
+  let rep : state := [(0, Some 0); (1, Some 1); (2, None)] in
+  others [0; 1] 2 rep /\ length (cand [0; 1] true 2 rep) = 3 /\ movable false 0 rep = false.
+Proof.
+  split; [|split; reflexivity].
+  split; [cbn; auto|]. split; [repeat constructor; cbn; intuition discriminate|].
+  intros c [<-|[<-|[]]]; [exists 0| exists 1]; (split; [discriminate| cbn; auto]).
+Qed.
+Print Assumptions C04_dp_move_premises_satisfiable.
 
 (* prune-regraft with the pinned extra factor: a two-candidate fiber with equal target but extra factors 1 and 2 *)
 Example C04_prg_extra_refuted :
